@@ -275,18 +275,24 @@ pub fn coherence_part(opts: &Opts, rep: &mut Report) {
                 if img == c || ref_norm(img, &cfg) != img {
                     continue;
                 }
-                match (ref_class(c, &cfg), ref_class(img, &cfg)) {
-                    (Some(a), Some(b)) if a == b => (),
-                    _ => continue,
-                }
+                // the stand-in: the image itself or its ASCII capital (KELVIN SIGN / K under case folding), whichever has the
+                // class of the character
+                let cc = ref_class(c, &cfg);
+                let Some(equiv) = [img, img.to_ascii_uppercase()].into_iter().find(|&e| e != c && ref_norm(e, &cfg) == img && cc.is_some() && ref_class(e, &cfg) == cc) else {
+                    continue;
+                };
                 let f0 = ref_norm(fill[0], &cfg);
+                let f1 = ref_norm(fill[1], &cfg);
                 for (hay, needle) in [
                     (vec![fill[0], ' ', fill[0], c, fill[1]], vec![f0, img]),
                     (vec![fill[0], fill[1], fill[0], fill[2], c], vec![f0, img]),
                     (vec![c, fill[1], c, fill[0]], vec![img, f0]),
-                    (vec![fill[0], c, fill[0], c, fill[1]], vec![f0, img, ref_norm(fill[1], &cfg)]),
+                    (vec![fill[0], c, fill[0], c, fill[1]], vec![f0, img, f1]),
+                    // the plain image occurs again later, where the rest of the needle no longer follows
+                    (vec![c, fill[1], fill[2], img, fill[0]], vec![img, f1]),
+                    (vec![fill[2], c, fill[1], ' ', img, fill[0], img], vec![img, f1]),
                 ] {
-                    let replaced: Vec<char> = hay.iter().map(|&x| if x == c { img } else { x }).collect();
+                    let replaced: Vec<char> = hay.iter().map(|&x| if x == c { equiv } else { x }).collect();
                     let (h1, h2, n) = (Text::new(hay.clone()), Text::new(replaced), Text::new(needle.clone()));
                     matcher.config = cfg.real();
                     rep.count("c16.substitution-probes");
@@ -306,7 +312,7 @@ pub fn coherence_part(opts: &Opts, rep: &mut Report) {
                                     "coherence/result-changes-when-a-character-is-replaced-by-its-image",
                                     format!("{}_indices", algo.name()),
                                     jobj! {"haystack" => show_chars(&hay), "needle" => show_chars(&needle), "config" => format!("{cfg:?}"), "case_id" => format!("U+{u:04X}"),
-                                           "with_the_character" => format!("{a:?} {i1:?}"), "with_its_image" => format!("{b:?} {i2:?}")},
+                                           "with_the_character" => format!("{a:?} {i1:?}"), "with_its_image" => format!("{b:?} {i2:?}"), "stand_in" => show_chars(&[equiv])},
                                 );
                                 break;
                             }
